@@ -242,7 +242,62 @@ for sz in HEAP_T:
 
 
 # ---------------------------------------------------------------------------------------------------
-MODULES = ['k1_lib', 'k2_insert', 'k2_remove', 'k2_range', 'k2_misc', 'k1_handles', 'k1_types', 'k2_lazy', 'k1_rawparts', 'k1_heap']
+# K1 into_range, expected panics of checked entry points
+RANGE_PANIC = [r'in function into_range', r'range (start|end) overflow', r'core::option::expect_failed', r'Option::<.*>::expect']
+add('k1_misc', 'into_range_ok', 'into_range_ok_h()', props=['C02'], tier='q', cost=3, macro='p')
+add('k1_misc', 'into_range_bad', 'into_range_bad_h()', props=['C02'], tier='q', kind='panic', attrs=['#[kani::should_panic]'], allow=RANGE_PANIC, cost=3, macro='p')
+for nm, sp, ty in [('drain_bad_range_e8', 'false', 'false'), ('splice_bad_range_e8', 'true', 'false'), ('drain_typed_bad_range_e8', 'false', 'true'), ('splice_typed_bad_range_e8', 'true', 'true')]:
+    add('k1_misc', nm, 'range_op_bad::<E8>(%s, %s)' % (sp, ty), props=['C02'], tier='q' if nm in ('drain_bad_range_e8', 'splice_typed_bad_range_e8') else 't', kind='panic',
+        attrs=['#[kani::should_panic]'], allow=RANGE_PANIC, cost=6)
+OBS = ['#[kani::should_panic]', '#[kani::stub(crate::any_vec_raw::AnyVecRaw::index_check, crate::kani_verif::k1_misc::obs_index_check)]']
+IDX_PANIC = [r'obs_index_check', r'Index out of range', r'insert_unchecked']
+for nm, op, ty, q in [('remove_oob_e8', 0, 'false', True), ('swap_remove_oob_e8', 1, 'false', True), ('insert_oob_e8', 2, 'false', True),
+                      ('remove_typed_oob_e8', 0, 'true', True), ('swap_remove_typed_oob_e8', 1, 'true', False), ('insert_typed_oob_e8', 2, 'true', True)]:
+    add('k1_misc', nm, 'index_op_bad::<E8>(%d, %s, mk_e8)' % (op, ty), props=['C01'], tier='q' if q else 't', kind='panic', attrs=OBS, allow=IDX_PANIC, cost=6)
+add('k1_misc', 'none_ops_e8', 'none_ops::<E8>()', props=['C01', 'C13'], tier='q', cost=6)
+add('k1_misc', 'none_ops_z0', 'none_ops::<Z0>()', props=['C01'], tier='t', cost=6)
+CAP_PANIC = [r"Can't change capacity", r'GhostMem as mem::Mem>::expand']
+for nm, pu, ty in [('push_fixed_full_e8', 'true', 'false'), ('insert_fixed_full_e8', 'false', 'false'), ('push_typed_fixed_full_e8', 'true', 'true'), ('insert_typed_fixed_full_e8', 'false', 'true')]:
+    add('k1_misc', nm, 'fixed_overflow::<E8>(%s, %s, mk_e8)' % (pu, ty), props=['C11', 'C19'], tier='q', kind='panic', attrs=['#[kani::should_panic]'], allow=CAP_PANIC, cost=6)
+
+
+# ---------------------------------------------------------------------------------------------------
+# K1 Stack / StackN / Empty / dangling (C11, C12, C19)
+GRID = {'e1': [0, 1, 5], 'e3': [0, 2, 3, 4, 8, 9, 10], 'e8': [0, 7, 8, 9, 15, 16, 17, 513], 'e12': [11, 12, 13, 24, 25], 'e24': [23, 24, 25, 48], 'z0': [0, 5], 'e160': [159, 160, 161, 320]}
+for sz, sizes in GRID.items():
+    for S in sizes:
+        add('k1_mem', 'stack_build_%s_%d' % (sz, S), 'stack_build_h::<%s, %d>()' % (TY[sz], S), props=['C11', 'C12', 'C19'],
+            tier='q' if (sz, S) in {('e8', 16), ('e3', 8), ('z0', 5), ('e12', 25), ('e8', 7)} else 't', cost=1, macro='p')
+for sz, S in [('e16', 64), ('a32', 64), ('a64', 128)]:
+    add('k1_mem', 'stack_align_%s' % sz, 'stack_build_h::<%s, %d>()' % (TY[sz], S), props=['C12'], tier='q', cost=1, macro='p')
+    add('k1_mem', 'stackn_align_%s' % sz, 'stackn_build_h::<%s, 1, %d>()' % (TY[sz], S), props=['C12'], tier='q', cost=1, macro='p')
+for sz, N, S in [('e8', 2, 16), ('e8', 2, 17), ('e8', 0, 0), ('e3', 3, 9), ('e3', 3, 10), ('z0', 7, 0), ('e12', 2, 24), ('e24', 1, 24), ('e160', 2, 320)]:
+    add('k1_mem', 'stackn_build_%s_%d_%d' % (sz, N, S), 'stackn_build_h::<%s, %d, %d>()' % (TY[sz], N, S), props=['C11', 'C12', 'C19'],
+        tier='q' if (sz, N, S) in {('e8', 2, 16), ('e3', 3, 9), ('z0', 7, 0)} else 't', cost=1, macro='p')
+for sz, N, S in [('e8', 2, 15), ('e3', 3, 8), ('e8', 1, 0), ('e12', 2, 23), ('e8', 2305843009213693952, 8), ('e2', 9223372036854775808, 16), ('e3', 6148914691236517206, 16)]:
+    add('k1_mem', 'stackn_insufficient_%s_%d_%d' % (sz, N, S), 'stackn_insufficient_h::<%s, %d, %d>()' % (TY[sz], N, S), props=['C11'],
+        tier='q' if (sz, S) in {('e8', 15), ('e8', 8), ('e2', 16)} else 't', kind='panic', attrs=['#[kani::should_panic]'],
+        allow=[r'StackN<.*> as mem::MemBuilder>::build', r'Insufficient storage'], cost=1, macro='p')
+for sz in ['e8', 'z0', 'e3', 'a64', 'e16']:
+    add('k1_mem', 'empty_' + sz, 'empty_h::<%s>()' % TY[sz], props=['C12', 'C17', 'C19'], tier='q' if sz in ('e8', 'a64') else 't', cost=1, macro='p')
+add('k1_mem', 'dangling_all', 'dangling_h()', props=['C12'], tier='q', cost=3, macro='p')
+add('k1_mem', 'stack_expand_panics', 'stack_expand_h()', props=['C11'], tier='q', kind='panic', attrs=['#[kani::should_panic]'], allow=[r"mem::Mem::expand", r"Can't change capacity"], cost=1, macro='p')
+
+
+# ---------------------------------------------------------------------------------------------------
+# C12 views, C13 swap
+for sz in ['e8', 'z0', 'e1', 'e3', 'e16', 'e12', 'a64', 'e160']:
+    add('k1_views', 'views_' + sz, 'views_h::<%s>()' % TY[sz], props=['C12', 'C13'], tier=tier_for(sz, {'e8', 'z0', 'e1', 'a64'}), cost=60 if sz in SLOW else 8, macro='p')
+HK = ['H_ELEM_MUT', 'H_TEMP', 'H_WRAPPER', 'H_RAW']
+BSWAP = 'vectors of 3 u64 elements on real Stack<32> memory; the swapped values and indices are fully symbolic'
+for a in range(4):
+    for b in range(4):
+        add('k1_views', 'swap_%d_%d' % (a, b), 'swap_h(%s, %s)' % (HK[a], HK[b]), props=['C13'], tier='q' if (a, b) in {(0, 0), (0, 1), (1, 2), (2, 3), (3, 0), (1, 1)} else 't',
+            kind='bounded', bound=BSWAP, attrs=['#[kani::stub(core::ptr::swap_nonoverlapping, crate::kani_verif::k1_views::swap_no_model)]'], flags=['nolc'], cost=20, macro='p')
+
+
+# ---------------------------------------------------------------------------------------------------
+MODULES = ['k1_lib', 'k2_insert', 'k2_remove', 'k2_range', 'k2_misc', 'k1_handles', 'k1_types', 'k2_lazy', 'k1_rawparts', 'k1_heap', 'k1_misc', 'k1_mem', 'k1_views']
 
 
 def write_instances(kv_dir, selected):
